@@ -23,7 +23,9 @@ THEOREMS = [
     "crc_linear", "crc_detects_single_bit", "crc_detects_burst_le_32_bits", "crc_detects_burst_le_32",
     "crc_detects_byte_overwrite", "verify_detects", "verify_or_unchanged_partial",
     "detected_every_time", "cache_first_read_path_unsound",
-    "cktype_field_unprotected_witness", "index_open_detects", "index_count_unprotected_witness",
+    "accepted_has_own_crc", "cktype_none_refused", "accepted_sealed", "verify_detects_any_cktype",
+    "cktype_overwrite_regression", "trailer_not_a_mac", "index_open_detects", "index_count_protected",
+    "index_count_unique", "index_cktype_none_refused", "index_count_regression", "index_cktype_overwrite_regression",
     "compaction_never_launders", "cache_first_compaction_launders", "laundered_block_verifies",
 ]
 
@@ -70,8 +72,6 @@ def corpus_lines():
 def idx_consistent(impl, model):
     if impl == model:
         return True
-    if model == "err:decode-or-abort":
-        return impl in ("err:decode", "abort")
     if model == "accepted-altered":
         return impl.startswith("ok:") or impl == "err:decode"
     return False
@@ -369,9 +369,7 @@ def disk_decide(ck, layouts, cases, model_answers, cov):
         else:
             m = manswer
             orig_count = int.from_bytes(bytes.fromhex(lay["hex"])[flen - 20:flen - 12], "big") if flen >= 24 else -1
-            if m.startswith("err:decode-or-abort"):
-                ok = coarse in ("panic", "abort")
-            elif m.startswith("err:"):
+            if m.startswith("err:"):
                 ok = coarse == "panic"
             elif m == "accepted-altered":
                 # altered entries pass the (disabled) checksum; what protobuf decoding and the scan
@@ -635,7 +633,7 @@ def run(ck):
                      trusted_base=["Lean 4 kernel (axioms: propext, Classical.choice, Quot.sound)", "translator/gen_consts.py",
                                    "harness/src/bin/c18.rs + /repo hook storage::secondary::verif_hooks", "python zlib.crc32 (CRC oracle)",
                                    "moka cache modelled as: try_get_with publishes what the loader returns Ok (the loader verifies), a failed load is not cached; no eviction at these sizes",
-                                   "protobuf decoding of index entries is not modelled (only the entry count)"])
+                                   "protobuf content of index entries is not modelled (their length-delimited framing and count are)"])
 
 
 def replay(path):
